@@ -49,6 +49,11 @@ Bad(e) ==
     [] e.ev = "Cycle"  ->
          { c \in {"HistMono"}    : pc = "test" /\ last > Floor /\ e.res_lg > last + SlackMono }
          \cup { c \in {"M:CycleOrder"} : e.m # m + 1 \/ ~(pc \in {"cycle", "test"}) }
+         (* a cycle cut short (Hessenberg system smaller than m) claims an invariant Krylov space: its  *)
+         (* iterate must then solve the system to ROUNDING level, not merely to the tolerance           *)
+         \cup { c \in {"ShortCycleOnlyWhenInvariant"} : e.kdim < e.m /\ e.res_lg > Floor + par.condA_lg + 256 }
+         \cup { c \in {"M:KdimAtMostM"} : e.kdim > e.m }
+         \cup { c \in {"M:BreakdownAtGrade"} : e.kdim < e.m /\ par.condA_lg <= 256 /\ e.kdim # par.geff }
          \cup { c \in {"M:CycleAfterStop"} : pc = "test" /\ (last < par.tol_lg \/ m > par.cap \/ m = par.N) }
     [] e.ev = "Return" -> RetBad(e, par) \cup RetDrift(e, par)
     [] e.ev = "Pair"   -> { c \in {"PrecIndependent"}  : e.kind = "prec"  /\ e.diff_lg > e.bound_lg }
